@@ -46,8 +46,11 @@ Definition CaL_beta_r v := (65/10000) / (exp ((- 15 - v) / 28) + 1).
 Definition CaL_current q r v gCaL eCa := gCaL * q ^ 2 * r * (v - eCa).
 Definition CaT_s_inf v vx := 1 / (1 + exp (- (v + vx + 57) / (62/10))).
 Definition CaT_u_inf v vx := 1 / (1 + exp ((v + vx + 81) / 4)).
+(* tau_u = 30.8 + (211.4 + exp((V+Vx+113.2)/5)) / (3.7 (1 + exp((V+Vx+84)/3.2))): the constant
+   30.8 ms is NOT divided by the voltage-dependent denominator (Pospischil et al. 2008, I_T;
+   Huguenard & McCormick 1992) *)
 Definition CaT_tau_u v vx :=
-  ((308/10) + ((2114/10) + exp ((v + vx + (1132/10)) / 5)))
+  (308/10) + ((2114/10) + exp ((v + vx + (1132/10)) / 5))
   / ((37/10) * (1 + exp ((v + vx + 84) / (32/10)))).
 Definition CaT_current u v gCaT vx eCa := gCaT * (CaT_s_inf v vx) ^ 2 * u * (v - eCa).
 Definition Leak_current v gLeak eLeak := gLeak * (v - eLeak).
